@@ -1,4 +1,5 @@
 """C10 - only token linearity: every token / child list flows into the tree exactly once on every path."""
+import re
 from .. import absint as A
 from .. import tree as T
 from ..report import Finding
@@ -141,6 +142,50 @@ def run(ctx, res):
                 r5_bad.add(_short(nxt or "<none>"))
         if len(res.samples) < 8:
             res.samples.append({"path": label or "text-token", "token_placed": placed, "children_consumed": childs if recursed else None, "exit": o["exit"]})
+    # R6: a closing tag is normalised in the same way where it is *recognised* as the closer of an open element (ancestor
+    # test) and where it is *paired* with its opener: otherwise `<//a>` is recognised as closing `a` by one and rejected by
+    # the other, every level unwinds and the rest of the document is lost.  Decided on the slash-count abstraction of the
+    # closer's name (k leading slashes, k = 1, 2, 3) from the terms of the two comparisons.
+    anc, pair = set(), set()
+    for o in outs:
+        for k in o["decisions"]:
+            m1 = re.search(r"parse\(.+?\)\.some\.name((?:\.[a-z_]+\([^()]*\)|\.some)*)\)?\}\)$", k) if k.startswith("any(") else None
+            if m1 and "$e.name" in k:
+                anc.add(m1.group(1))
+            if k.startswith("eq(") and "tree(" in k and ".name" in k and re.search(r"parse\(.+?\)\.some\.name", k):
+                m2 = re.search(r"tree\([^\n]*?\)\.1\.some(?:\.1)?\.name((?:\.[a-z_]+\([^()]*\)|\.some)*)", k)
+                if m2:
+                    pair.add(m2.group(1))
+
+    def slashes(chain, k):
+        opt = False
+        for op, arg in re.findall(r"\.([a-z_]+)(?:\(([^()]*)\))?", chain):
+            if op == "trim_start_matches" and arg == "'/'":
+                k = 0
+            elif op == "strip_prefix" and arg == "'/'":
+                if k == 0:
+                    return None
+                k -= 1
+                opt = True
+            elif op == "some":
+                opt = False
+            else:
+                raise ValueError(op)
+        return k
+    if len(anc) == 1 and len(pair) == 1:
+        a_, p_ = list(anc)[0], list(pair)[0]
+        try:
+            diff = [k for k in (1, 2, 3) if slashes(a_, k) != slashes(p_, k)]
+        except ValueError as e:
+            diff = None
+            res.cannot("C10.R6", fn, "closer-normalisation", "name operation `%s` is not modelled" % e, loc)
+        if diff == []:
+            res.holds("C10.R6", fn, "closer-normalisation", "ancestor test `name%s` and pairing `name%s` agree for 1-3 leading slashes" % (a_, p_))
+        elif diff:
+            res.add(Finding("C10.R6", fn, "closer-normalisation", "a closing tag with %d leading slashes is normalised as `name%s` where it is recognised as the closer of an open "
+                            "element but as `name%s` where it is paired with its opener: the two disagree, every level unwinds and the rest of the document is dropped" % (diff[0], a_, p_), loc=loc))
+    else:
+        res.cannot("C10.R6", fn, "closer-normalisation", "ancestor test / pairing comparison not identified (%d / %d forms)" % (len(anc), len(pair)), loc)
     for cond in sorted(r5_bad):
         res.add(Finding("C10.R5", fn, "tag-iff-parsed:" + cond, "an Element token is subject to the condition `%s` before (or instead of) element_parser::parse: "
                         "a well-formed tag can be kept as text" % cond, loc=loc))
@@ -174,7 +219,6 @@ def run(ctx, res):
         cnt += 1
         site = "%s:%s" % (n.get("name") or n["res"]["name"], detail)
         if cls == "banned":
-            import re
             m = re.search(r"\.(\w+)\((.*)\)$", detail)
             if m and m.group(1) in ("starts_with", "trim_start_matches", "strip_prefix") and m.group(2) == repr("/"):
                 res.holds("C10.R2", fshort(b_), site, "reviewed closing-prefix operation")
